@@ -111,137 +111,137 @@ theorem lookupSt_of (l : List St) (i : Nat) (s : St) (h : l[i]? = some s) : look
   simp [lookupSt, h]
 
 /-- paired row, both first rows -/
-theorem row_pair_first (l r i j : Nat) (sl sr : List St)
+theorem row_pair_first (l r i j : Nat) (sl sr : List St) (lraw rraw : Bool)
     (hl : sl[i]? = some .minus) (hr : sr[j]? = some .plus)
     (h1 : l + 1 ≤ usizeMax) (h2 : r + 1 ≤ usizeMax) :
-    sbsRow ⟨l, r⟩ sl sr (some i) (some j) = .ok (⟨l + 1, r + 1⟩, ⟨some ⟨true, false, some l, none⟩, some ⟨false, true, none, some r⟩⟩) := by
+    sbsRow ⟨l, r⟩ sl sr lraw rraw (some i) (some j) = .ok (⟨l + 1, r + 1⟩, ⟨some ⟨true, false, some l, none⟩, some ⟨false, true, none, some r⟩⟩) := by
   simp [sbsRow, lookupSt, hl, hr, pl_left_minus ⟨l, r⟩ (by simp; omega), pl_right_plus ⟨l, r⟩ (by simpa using h2),
-      applyFix, fixLookup, sbsFixArms, patMatch, St.code, addUsize, addUsizeSat, h1]
+      applyFix, fixLookup, sbsFixArms, patMatch, patMatch2, St.code, addUsize, addUsizeSat, h1]
 
 theorem row_pair_first_shown (l r : Nat) : ((⟨some ⟨true, false, some l, none⟩, some ⟨false, true, none, some r⟩⟩ : SbsRow)).shown = some (some l, some r) := by
   simp [SbsRow.shown, Cell.left, Cell.right]
 
 /-- paired row: first row of the minus line beside a continuation row of the plus line -/
-theorem row_pair_minus_first (l r i j : Nat) (sl sr : List St)
+theorem row_pair_minus_first (l r i j : Nat) (sl sr : List St) (lraw rraw : Bool)
     (hl : sl[i]? = some .minus) (hr : sr[j]? = some .plusWrapped) (h1 : l + 1 ≤ usizeMax) :
-    sbsRow ⟨l, r⟩ sl sr (some i) (some j) = .ok (⟨l + 1, r⟩, ⟨some ⟨true, false, some l, none⟩, some ⟨false, true, none, none⟩⟩) := by
+    sbsRow ⟨l, r⟩ sl sr lraw rraw (some i) (some j) = .ok (⟨l + 1, r⟩, ⟨some ⟨true, false, some l, none⟩, some ⟨false, true, none, none⟩⟩) := by
   simp [sbsRow, lookupSt, hl, hr, pl_left_minus ⟨l, r⟩ (by simp; omega), pl_right_plusWrapped,
-      applyFix, fixLookup, sbsFixArms, patMatch, St.code, addUsize, addUsizeSat, h1]
+      applyFix, fixLookup, sbsFixArms, patMatch, patMatch2, St.code, addUsize, addUsizeSat, h1]
 
 theorem row_pair_minus_first_shown (l r : Nat) : ((⟨some ⟨true, false, some l, none⟩, some ⟨false, true, none, none⟩⟩ : SbsRow)).shown = some (some l, none) := by
   simp [SbsRow.shown, Cell.left, Cell.right]
 
 /-- paired row, both continuation rows -/
-theorem row_pair_cont (l r i j : Nat) (sl sr : List St)
+theorem row_pair_cont (l r i j : Nat) (sl sr : List St) (lraw rraw : Bool)
     (hl : sl[i]? = some .minusWrapped) (hr : sr[j]? = some .plusWrapped) :
-    sbsRow ⟨l, r⟩ sl sr (some i) (some j) = .ok (⟨l, r⟩, ⟨some ⟨true, false, none, none⟩, some ⟨false, true, none, none⟩⟩) := by
+    sbsRow ⟨l, r⟩ sl sr lraw rraw (some i) (some j) = .ok (⟨l, r⟩, ⟨some ⟨true, false, none, none⟩, some ⟨false, true, none, none⟩⟩) := by
   simp [sbsRow, lookupSt, hl, hr, pl_left_minusWrapped, pl_right_plusWrapped,
-      applyFix, fixLookup, sbsFixArms, patMatch, St.code]
+      applyFix, fixLookup, sbsFixArms, patMatch, patMatch2, St.code]
 
 theorem row_pair_cont_shown (l r : Nat) : ((⟨some ⟨true, false, none, none⟩, some ⟨false, true, none, none⟩⟩ : SbsRow)).shown = some (none, none) := by
   simp [SbsRow.shown, Cell.left, Cell.right]
 
 /-- unpaired minus row, first row: the right panel call increments the left counter -/
-theorem row_left_first (l r i : Nat) (sl sr : List St)
+theorem row_left_first (l r i : Nat) (sl sr : List St) (lraw rraw : Bool)
     (hl : sl[i]? = some .minus) (h1 : l + 1 ≤ usizeMax) :
-    sbsRow ⟨l, r⟩ sl sr (some i) none = .ok (⟨l + 1, r⟩, ⟨some ⟨true, false, some l, none⟩, some ⟨false, true, some l, none⟩⟩) := by
+    sbsRow ⟨l, r⟩ sl sr lraw rraw (some i) none = .ok (⟨l + 1, r⟩, ⟨some ⟨true, false, some l, none⟩, some ⟨false, true, some l, none⟩⟩) := by
   simp [sbsRow, lookupSt, hl, pl_left_minus ⟨l, r⟩ (by simp; omega), sbsDefaultStates, St.ofCode, opposite,
       lookupOpp, oppositeArms, St.code, pl_right_minus ⟨l, r⟩ (by simpa using h1),
-      applyFix, fixLookup, sbsFixArms, patMatch]
+      applyFix, fixLookup, sbsFixArms, patMatch, patMatch2]
 
 theorem row_left_first_shown (l r : Nat) : ((⟨some ⟨true, false, some l, none⟩, some ⟨false, true, some l, none⟩⟩ : SbsRow)).shown = some (some l, none) := by
   simp [SbsRow.shown, Cell.left, Cell.right]
 
 /-- unpaired minus row, continuation: `+1` by the right panel call, undone by the correction -/
-theorem row_left_cont (l r i : Nat) (sl sr : List St)
+theorem row_left_cont (l r i : Nat) (sl sr : List St) (lraw rraw : Bool)
     (hl : sl[i]? = some .minusWrapped) (h1 : l + 1 ≤ usizeMax) :
-    sbsRow ⟨l, r⟩ sl sr (some i) none = .ok (⟨l, r⟩, ⟨some ⟨true, false, none, none⟩, some ⟨false, true, some l, none⟩⟩) := by
+    sbsRow ⟨l, r⟩ sl sr lraw rraw (some i) none = .ok (⟨l, r⟩, ⟨some ⟨true, false, none, none⟩, some ⟨false, true, some l, none⟩⟩) := by
   simp [sbsRow, lookupSt, hl, pl_left_minusWrapped, sbsDefaultStates, St.ofCode, opposite,
       lookupOpp, oppositeArms, St.code, pl_right_minus ⟨l, r⟩ (by simpa using h1),
-      applyFix, fixLookup, sbsFixArms, patMatch]
+      applyFix, fixLookup, sbsFixArms, patMatch, patMatch2]
 
 theorem row_left_cont_shown (l r : Nat) : ((⟨some ⟨true, false, none, none⟩, some ⟨false, true, some l, none⟩⟩ : SbsRow)).shown = some (none, none) := by
   simp [SbsRow.shown, Cell.left, Cell.right]
 
 /-- unpaired plus row, first row -/
-theorem row_right_first (l r j : Nat) (sl sr : List St)
+theorem row_right_first (l r j : Nat) (sl sr : List St) (lraw rraw : Bool)
     (hr : sr[j]? = some .plus) (h2 : r + 1 ≤ usizeMax) :
-    sbsRow ⟨l, r⟩ sl sr none (some j) = .ok (⟨l, r + 1⟩, ⟨some ⟨true, false, none, some r⟩, some ⟨false, true, none, some r⟩⟩) := by
+    sbsRow ⟨l, r⟩ sl sr lraw rraw none (some j) = .ok (⟨l, r + 1⟩, ⟨some ⟨true, false, none, some r⟩, some ⟨false, true, none, some r⟩⟩) := by
   simp [sbsRow, lookupSt, hr, sbsDefaultStates, St.ofCode, opposite, lookupOpp, oppositeArms, St.code,
       pl_left_plus ⟨l, r⟩ (by simp; omega), pl_right_plus ⟨l, r⟩ (by simpa using h2),
-      applyFix, fixLookup, sbsFixArms, patMatch]
+      applyFix, fixLookup, sbsFixArms, patMatch, patMatch2]
 
 theorem row_right_first_shown (l r : Nat) : ((⟨some ⟨true, false, none, some r⟩, some ⟨false, true, none, some r⟩⟩ : SbsRow)).shown = some (none, some r) := by
   simp [SbsRow.shown, Cell.left, Cell.right]
 
 /-- unpaired plus row, continuation -/
-theorem row_right_cont (l r j : Nat) (sl sr : List St)
+theorem row_right_cont (l r j : Nat) (sl sr : List St) (lraw rraw : Bool)
     (hr : sr[j]? = some .plusWrapped) (h2 : r ≤ usizeMax) :
-    sbsRow ⟨l, r⟩ sl sr none (some j) = .ok (⟨l, r⟩, ⟨some ⟨true, false, none, some r⟩, some ⟨false, true, none, none⟩⟩) := by
+    sbsRow ⟨l, r⟩ sl sr lraw rraw none (some j) = .ok (⟨l, r⟩, ⟨some ⟨true, false, none, some r⟩, some ⟨false, true, none, none⟩⟩) := by
   simp [sbsRow, lookupSt, hr, sbsDefaultStates, St.ofCode, opposite, lookupOpp, oppositeArms, St.code,
       pl_left_plus ⟨l, r⟩ (by simpa using h2), pl_right_plusWrapped,
-      applyFix, fixLookup, sbsFixArms, patMatch]
+      applyFix, fixLookup, sbsFixArms, patMatch, patMatch2]
 
 theorem row_right_cont_shown (l r : Nat) : ((⟨some ⟨true, false, none, some r⟩, some ⟨false, true, none, none⟩⟩ : SbsRow)).shown = some (none, none) := by
   simp [SbsRow.shown, Cell.left, Cell.right]
 
 /-- paired row: continuation of the minus line beside the first row of the plus line (cannot arise
     from `wrap_minusplus_block`, which pairs first rows; kept for completeness of the case table) -/
-theorem row_pair_plus_first (l r i j : Nat) (sl sr : List St)
+theorem row_pair_plus_first (l r i j : Nat) (sl sr : List St) (lraw rraw : Bool)
     (hl : sl[i]? = some .minusWrapped) (hr : sr[j]? = some .plus) (h2 : r + 1 ≤ usizeMax) :
-    sbsRow ⟨l, r⟩ sl sr (some i) (some j) = .ok (⟨l, r + 1⟩, ⟨some ⟨true, false, none, none⟩, some ⟨false, true, none, some r⟩⟩) := by
+    sbsRow ⟨l, r⟩ sl sr lraw rraw (some i) (some j) = .ok (⟨l, r + 1⟩, ⟨some ⟨true, false, none, none⟩, some ⟨false, true, none, some r⟩⟩) := by
   simp [sbsRow, lookupSt, hl, hr, pl_left_minusWrapped, pl_right_plus ⟨l, r⟩ (by simpa using h2),
-      applyFix, fixLookup, sbsFixArms, patMatch, St.code]
+      applyFix, fixLookup, sbsFixArms, patMatch, patMatch2, St.code]
 
 theorem row_pair_plus_first_shown (l r : Nat) : ((⟨some ⟨true, false, none, none⟩, some ⟨false, true, none, some r⟩⟩ : SbsRow)).shown = some (none, some r) := by
   simp [SbsRow.shown, Cell.left, Cell.right]
 
 /-! ### runs of rows -/
 
-theorem sbsRows_append (sl sr : List St) (xs ys : Alignment) : ∀ (c : Counters),
-    sbsRows c sl sr (xs ++ ys) =
-      match sbsRows c sl sr xs with
+theorem sbsRows_append (sl sr : List St) (rl rr : List Bool) (xs ys : Alignment) : ∀ (c : Counters),
+    sbsRows c sl sr rl rr (xs ++ ys) =
+      match sbsRows c sl sr rl rr xs with
       | .error e => .error e
       | .ok (c1, r1) =>
-        match sbsRows c1 sl sr ys with
+        match sbsRows c1 sl sr rl rr ys with
         | .error e => .error e
         | .ok (c2, r2) => .ok (c2, r1 ++ r2) := by
   induction xs with
   | nil =>
     intro c
     simp only [List.nil_append, sbsRows]
-    cases sbsRows c sl sr ys with
+    cases sbsRows c sl sr rl rr ys with
     | error e => rfl
     | ok v => rfl
   | cons x xs ih =>
     intro c
     obtain ⟨mi, pi⟩ := x
     simp only [List.cons_append, sbsRows]
-    cases sbsRow c sl sr mi pi with
+    cases sbsRow c sl sr (rawAt rl mi) (rawAt rr pi) mi pi with
     | error e => rfl
     | ok v =>
       obtain ⟨c1, row⟩ := v
       simp only [ih c1]
-      cases sbsRows c1 sl sr xs with
+      cases sbsRows c1 sl sr rl rr xs with
       | error e => rfl
       | ok w =>
         obtain ⟨c2, r1⟩ := w
         simp only []
-        cases sbsRows c2 sl sr ys with
+        cases sbsRows c2 sl sr rl rr ys with
         | error e => rfl
         | ok u => simp
 
 /-- continuation rows of a pair -/
-theorem rows_pair_cont (sl sr : List St) (l r : Nat) : ∀ (n L R : Nat),
+theorem rows_pair_cont (sl sr : List St) (rl rr : List Bool) (l r : Nat) : ∀ (n L R : Nat),
     (∀ t, t < n → sl[L + t]? = some .minusWrapped) → (∀ t, t < n → sr[R + t]? = some .plusWrapped) →
-    ∃ rows, sbsRows ⟨l, r⟩ sl sr (paired L R n) = .ok (⟨l, r⟩, rows) ∧
+    ∃ rows, sbsRows ⟨l, r⟩ sl sr rl rr (paired L R n) = .ok (⟨l, r⟩, rows) ∧
       rows.map SbsRow.shown = List.replicate n (some (none, none)) := by
   intro n
   induction n with
   | zero => intro L R _ _; exact ⟨[], rfl, rfl⟩
   | succ n ih =>
     intro L R hl hr
-    have h1 := row_pair_cont l r L R sl sr (by simpa using hl 0 (by omega)) (by simpa using hr 0 (by omega))
+    have h1 := row_pair_cont l r L R sl sr (rawAt rl (some L)) (rawAt rr (some R)) (by simpa using hl 0 (by omega)) (by simpa using hr 0 (by omega))
     have h2 := row_pair_cont_shown l r
     obtain ⟨rows, h3, h4⟩ := ih (L + 1) (R + 1)
       (fun t ht => by have := hl (t + 1) (by omega); rwa [show L + (t + 1) = L + 1 + t by omega] at this)
@@ -249,32 +249,32 @@ theorem rows_pair_cont (sl sr : List St) (l r : Nat) : ∀ (n L R : Nat),
     exact ⟨(⟨some ⟨true, false, none, none⟩, some ⟨false, true, none, none⟩⟩ : SbsRow) :: rows,
       by simp [paired, sbsRows, h1, h3], by simp [h2, h4, List.replicate_succ]⟩
 
-theorem rows_left_cont (sl sr : List St) (l r : Nat) (h1 : l + 1 ≤ usizeMax) : ∀ (n L : Nat),
+theorem rows_left_cont (sl sr : List St) (rl rr : List Bool) (l r : Nat) (h1 : l + 1 ≤ usizeMax) : ∀ (n L : Nat),
     (∀ t, t < n → sl[L + t]? = some .minusWrapped) →
-    ∃ rows, sbsRows ⟨l, r⟩ sl sr (leftOnly L n) = .ok (⟨l, r⟩, rows) ∧
+    ∃ rows, sbsRows ⟨l, r⟩ sl sr rl rr (leftOnly L n) = .ok (⟨l, r⟩, rows) ∧
       rows.map SbsRow.shown = List.replicate n (some (none, none)) := by
   intro n
   induction n with
   | zero => intro L _; exact ⟨[], rfl, rfl⟩
   | succ n ih =>
     intro L hl
-    have h2 := row_left_cont l r L sl sr (by simpa using hl 0 (by omega)) h1
+    have h2 := row_left_cont l r L sl sr (rawAt rl (some L)) (rawAt rr none) (by simpa using hl 0 (by omega)) h1
     have h3 := row_left_cont_shown l r
     obtain ⟨rows, h4, h5⟩ := ih (L + 1)
       (fun t ht => by have := hl (t + 1) (by omega); rwa [show L + (t + 1) = L + 1 + t by omega] at this)
     exact ⟨(⟨some ⟨true, false, none, none⟩, some ⟨false, true, some l, none⟩⟩ : SbsRow) :: rows,
       by simp [leftOnly, sbsRows, h2, h4], by simp [h3, h5, List.replicate_succ]⟩
 
-theorem rows_right_cont (sl sr : List St) (l r : Nat) (h2 : r ≤ usizeMax) : ∀ (n R : Nat),
+theorem rows_right_cont (sl sr : List St) (rl rr : List Bool) (l r : Nat) (h2 : r ≤ usizeMax) : ∀ (n R : Nat),
     (∀ t, t < n → sr[R + t]? = some .plusWrapped) →
-    ∃ rows, sbsRows ⟨l, r⟩ sl sr (rightOnly R n) = .ok (⟨l, r⟩, rows) ∧
+    ∃ rows, sbsRows ⟨l, r⟩ sl sr rl rr (rightOnly R n) = .ok (⟨l, r⟩, rows) ∧
       rows.map SbsRow.shown = List.replicate n (some (none, none)) := by
   intro n
   induction n with
   | zero => intro R _; exact ⟨[], rfl, rfl⟩
   | succ n ih =>
     intro R hr
-    have h3 := row_right_cont l r R sl sr (by simpa using hr 0 (by omega)) h2
+    have h3 := row_right_cont l r R sl sr (rawAt rl none) (rawAt rr (some R)) (by simpa using hr 0 (by omega)) h2
     have h4 := row_right_cont_shown l r
     obtain ⟨rows, h5, h6⟩ := ih (R + 1)
       (fun t ht => by have := hr (t + 1) (by omega); rwa [show R + (t + 1) = R + 1 + t by omega] at this)
